@@ -111,6 +111,7 @@ fn io_log(sh: &Shared) -> Value {
 struct Obj {
     rd: fasta::IndexedReader<Shared>,
     sh: Shared,
+    sel: Option<(u64, u64)>, // interval of the last successful fetch / fetch_by_rid (driver bookkeeping)
 }
 
 fn set_sched(o: &Obj, sched: &[usize]) {
@@ -145,7 +146,7 @@ fn open(log: &mut Log, tag: &str, cls: &str, recs: &[FRec], cut: i64, fai_crlf: 
         obj = Some(rd);
         json!({"seqs": seqs})
     });
-    obj.map(|rd| (Obj { rd, sh }, lay))
+    obj.map(|rd| (Obj { rd, sh, sel: None }, lay))
 }
 
 fn ok01(r: &std::io::Result<()>) -> i64 {
@@ -153,14 +154,20 @@ fn ok01(r: &std::io::Result<()>) -> i64 {
 }
 
 fn ev_fetch(log: &mut Log, o: &mut Obj, name: &[u8], start: u64, stop: u64) {
-    log.call("fetch", json!({"name": bytes(name), "start": start, "stop": stop}), || {
+    let r = log.call("fetch", json!({"name": bytes(name), "start": start, "stop": stop}), || {
         json!({"ok": ok01(&o.rd.fetch(s(name), start, stop))})
     });
+    if r["ok"] == 1 {
+        o.sel = Some((start, stop));
+    }
 }
 fn ev_fetch_rid(log: &mut Log, o: &mut Obj, rid: usize, start: u64, stop: u64) {
-    log.call("fetch_rid", json!({"rid": rid, "start": start, "stop": stop}), || {
+    let r = log.call("fetch_rid", json!({"rid": rid, "start": start, "stop": stop}), || {
         json!({"ok": ok01(&o.rd.fetch_by_rid(rid, start, stop))})
     });
+    if r["ok"] == 1 {
+        o.sel = Some((start, stop));
+    }
 }
 fn ev_fetch_all(log: &mut Log, o: &mut Obj, name: &[u8]) {
     log.call("fetch_all", json!({"name": bytes(name)}), || json!({"ok": ok01(&o.rd.fetch_all(s(name)))}));
@@ -170,6 +177,9 @@ fn ev_fetch_all_rid(log: &mut Log, o: &mut Obj, rid: usize) {
 }
 
 fn ev_read(log: &mut Log, o: &mut Obj, sched: &[usize], junk: bool) -> Value {
+    if junk && o.sel.map(|(a, b)| a == b).unwrap_or(false) {
+        log.oblige("empty_interval_into_dirty_buffer");
+    }
     set_sched(o, sched);
     o.sh.0.borrow_mut().log.clear();
     log.call("read", json!({"sched": sched.len()}), || {
@@ -463,6 +473,26 @@ pub fn drive(log: &mut Log) {
             };
             note(log, &r);
             log.oblige("tlc_behaviours_replayed");
+            // the adjacent window: the next fetch starts exactly where the completed read stopped. The model
+            // says (seam = 1) when the source was left in front of / inside the line terminator behind `stop`
+            if b["path"] == "buf" && b["last"] == "done" {
+                let len = recs[rid].seq.len() as u64;
+                let w = recs[rid].w as u64;
+                let stop2 = (stop + w).min(len);
+                if li % 2 == 0 {
+                    ev_fetch_rid(log, &mut o, rid, stop, stop2);
+                } else {
+                    ev_fetch(log, &mut o, &recs[rid].name.clone(), stop, stop2);
+                }
+                let r = if li % 3 == 0 { ev_read_iter(log, &mut o, &fills, -1, w as usize + 8) } else {
+                    ev_read(log, &mut o, &[3, 1], li % 2 == 1)
+                };
+                note(log, &r);
+                if b["seam"] == 1 {
+                    log.oblige("adjacent_windows_line_aligned_seam");
+                    log.oblige("adjacent_seam_from_tlc_behaviour");
+                }
+            }
         }
     }
 
@@ -769,6 +799,32 @@ pub fn drive(log: &mut Log) {
                     log.oblige("iter_partial_take");
                 }
             }
+            // adjacent windows: a completed read whose stop is a line end, fills ending exactly behind the last
+            // base (LF/CRLF) or between CR and LF, then the fetch that starts at that stop
+            if len >= 2 * w && q % 3 == 1 {
+                let lines = len / w;
+                let l1 = rng.below(lines as u64) as usize;
+                let l2 = rng.range(l1 as i64 + 1, lines as i64) as usize;
+                let a = (l1 * w + rng.below(w as u64) as usize) as u64;
+                let bnd = (l2 * w) as u64;
+                ev_fetch(log, &mut o, &r.name, a, bnd);
+                let first = w - (a as usize % w);
+                let sched: Vec<usize> = if r.t == 2 && rng.coin() {
+                    log.oblige("adjacent_seam_between_cr_and_lf");
+                    vec![first + 1, w + 2] // every fill ends behind a CR
+                } else {
+                    vec![first, r.t, w, r.t] // every fill ends behind the last base of a line / its terminator
+                };
+                let rr = ev_read(log, &mut o, &sched, false);
+                note(log, &rr);
+                let c = (bnd + rng.range(1, 2 * w as i64) as u64).min(len as u64);
+                if rng.coin() { ev_fetch(log, &mut o, &r.name, bnd, c) } else { ev_fetch_rid(log, &mut o, k, bnd, c) }
+                let rr = if rng.coin() { ev_read(log, &mut o, &[], true) } else {
+                    ev_read_iter(log, &mut o, &[], -1, (c - bnd) as usize + 16)
+                };
+                note(log, &rr);
+                log.oblige("adjacent_windows_line_aligned_seam");
+            }
         }
     }
 
@@ -809,6 +865,63 @@ pub fn drive(log: &mut Log) {
             note(log, &rr);
         }
         log.oblige("line_longer_than_bufreader");
+    }
+
+    // ---------------- C2: plain full-buffer reads (like io::Cursor): the 8 KiB BufReader seam swept over
+    // every byte around a line end, then the adjacent window
+    let mut sweep = 0usize;
+    for t in 1..=2usize {
+        for delta in -1i64..=(t as i64 + 1) {
+            // the first fill (8192 bytes from the seek position) ends `delta` bytes behind the last base of a
+            // line: 0 = right in front of the terminator, 1 with CRLF = between CR and LF, t = behind it
+            for w in [60usize, 61, 20] {
+                case += 1;
+                sweep += 1;
+                if !log.mine(case) {
+                    continue;
+                }
+                let mut rng = Rng::new(seed, 24, case);
+                let lby = w + t;
+                let len = (8192 / lby + 12) * w + rng.below(w as u64) as usize;
+                let recs = vec![
+                    FRec { name: b"p".to_vec(), desc: vec![], seq: seq_of(&mut rng, sweep % 5), w: 3, t },
+                    FRec { name: b"chr".to_vec(), desc: vec![], seq: seq_of(&mut rng, len), w, t },
+                ];
+                let (mut o, _lay) = match open(log, "seam8k", "seam8k", &recs, -1, false) {
+                    Some(x) => x,
+                    None => continue,
+                };
+                // seek position p = off + l1*lby + c; wanted: p + 8192 - delta = off + L*lby + w
+                let c0 = (w as i64 + delta - 8192).rem_euclid(lby as i64) as usize;
+                if c0 >= w {
+                    continue; // this delta cannot be produced with this width (start column inside a terminator)
+                }
+                for l1 in 0..3usize {
+                    let start = l1 * w + c0;
+                    let l = (l1 * lby + c0 + 8192 - w) as i64 - delta;
+                    let stop = (l as usize / lby + 1) * w;
+                    if l as usize % lby != 0 || stop > len {
+                        continue;
+                    }
+                    ev_fetch(log, &mut o, b"chr", start as u64, stop as u64);
+                    let rr = ev_read(log, &mut o, &[], false);
+                    note(log, &rr);
+                    let stop2 = (stop + w + rng.below(w as u64) as usize).min(len);
+                    if l1 % 2 == 0 { ev_fetch(log, &mut o, b"chr", stop as u64, stop2 as u64) } else {
+                        ev_fetch_rid(log, &mut o, 1, stop as u64, stop2 as u64)
+                    }
+                    let rr = if (l1 + sweep) % 2 == 0 { ev_read(log, &mut o, &[], true) } else {
+                        ev_read_iter(log, &mut o, &[], -1, stop2 - stop + 16)
+                    };
+                    note(log, &rr);
+                    log.oblige("bufreader_seam_on_line_end_then_adjacent");
+                    if delta == 0 || (t == 2 && delta == 1) {
+                        log.oblige("adjacent_windows_line_aligned_seam");
+                        log.oblige("adjacent_seam_at_8k_boundary");
+                    }
+                }
+            }
+        }
     }
 
     // ---------------- D: closed-form huge files: positions beyond 4 GiB / line numbers beyond 2^32
